@@ -91,11 +91,16 @@ claim("C10", "proof",
       "identically.  Emission: for the 2D patch tables libfive builds at start-up (dumped from the implementation on every run "
       "into Gen/MarchTables_gen.v) Dual<2>::walk + DCContourer::load on a UNIFORM grid emits, for every filled / empty "
       "assignment of the lattice points, a disjoint union of directed cycles; composed with the welding theorem every returned "
-      "contour is closed.  Oracle (not proved: grids with merged cells; that the loops wind around the solid): "
-      "Contours::render of random 2D solids and slices of 3D solids: contours closed, polygon winding 0 / one common "
-      "+-1, vertices in the region and within 2 feature sizes of the zero set.",
+      "contour is closed.  The loops BOUND the slice on uniform grids (Render/DCBoundary2.v): exactly one segment per lattice "
+      "edge whose ends differ, between the vertices of the two cells beside it; every lattice path from an inside to an outside "
+      "point crosses an odd number of segments (closed paths an even number); every segment has the inside lattice point on its "
+      "LEFT (integer cross products), i.e. filled regions are wound counter-clockwise and holes clockwise; over the reals a "
+      "sign-changing edge carries a zero of a continuous field, so a contour vertex lying in its own cell (explicit hypothesis; "
+      "see the finding) is within sqrt(2) h of the curve.  Oracle (not proved: grids with merged cells): Contours::render of "
+      "random 2D solids and slices of 3D solids: contours closed, polygon winding number exactly +1 inside (the proved "
+      "orientation) and 0 outside, vertices in the region and within 2 feature sizes of the zero set.",
       "Trusted: Coq kernel (no axioms); extraction; harness collect / contour commands.",
-      "Coq proof (map/chain invariants, pigeonhole on the welding walk) + extraction-based correspondence",
+      "Coq proof (map/chain invariants, pigeonhole on the welding walk; lattice boundary, parity, orientation, IVT) + extraction-based correspondence",
       "DESIGN.md section 6, C10")
 
 claim("C05", "proof",
